@@ -3,8 +3,8 @@
 Engine A.  One client connection (HTTP/1 keep-alive/pipelined, or HTTP/2 with concurrent streams) carries a history of
 2-12 tagged requests over a small universe of destinations (3 hosts + the upstream proxies' own addresses x 2 ports x
 http/https x {no upstream proxy, proxy A (http), proxy B (https)}), in regular, upstream:http, upstream:https and
-transparent mode.  A policy addon rewrites host / port / scheme / server_conn.via in `requestheaders` or `request`
-for some requests; the driver injects connect failures; peers inject TLS handshake failures, refused CONNECTs and
+transparent mode.  A policy addon rewrites host / port / scheme / server_conn.via (in place, or by replacing
+flow.server_conn with a fresh Server object carrying another via) in `requestheaders` or `request` for some requests; the driver injects connect failures; peers inject TLS handshake failures, refused CONNECTs and
 closes after a response.  Every endpoint is a real in-memory server that speaks TLS iff the first octet is a TLS
 record (stdlib ssl, ALPN h2/http1.1), answers CONNECT like a proxy and then serves the tunnel (again TLS or plain),
 and speaks HTTP/2 when ALPN selects it -- so https destinations are really served and every request head is seen in
@@ -145,7 +145,7 @@ def run_case(ctx, tctx, chain):
         body = b"b:" + tag if method == "POST" else b""
         reqs.append({"tag": tag, "host": host, "port": port, "scheme": scheme, "method": method, "body": body})
         if r.random() < (0.6 if fam == "transparent" else 0.3):
-            field = r.choice(["host", "port", "scheme", "via", "dest", "dest"])
+            field = r.choice(["host", "port", "scheme", "via", "replace", "dest", "dest"])
             hookname = r.choice(["requestheaders", "request"])
             if field == "host":
                 val = r.choice(HOSTS + [PROXY_A[1][0]])
@@ -153,13 +153,15 @@ def run_case(ctx, tctx, chain):
                 val = r.choice(PORTS + [3128])
             elif field == "scheme":
                 val = r.choice(["http", "https"])
-            elif field == "via":
+            elif field in ("via", "replace"):
                 val = r.choice([None, PROXY_A, PROXY_B])
             else:
                 val = r.choice(pool)
             rewrites[tag] = (hookname, field, val)
         elif via_case:
-            rewrites[tag] = (r.choice(["requestheaders", "request"]), "via", r.choice([None, None, PROXY_A, PROXY_B]))
+            # in place on the (shared) connection object, or by REPLACING flow.server_conn with a fresh Server carrying the
+            # wanted via -- what examples/contrib/change_upstream_proxy.py does when the current object is already open
+            rewrites[tag] = (r.choice(["requestheaders", "request"]), r.choice(["via", "replace"]), r.choice([None, None, PROXY_A, PROXY_B]))
 
     # ---- fault plan
     open_fail_p = r.choice([0, 0, 0.1, 0.25])
@@ -273,6 +275,10 @@ def run_case(ctx, tctx, chain):
                         f.request.scheme = val
                     elif field == "via":
                         f.server_conn.via = val
+                    elif field == "replace":
+                        f.server_conn = mconn.Server(address=f.server_conn.address)
+                        if val is not None:
+                            f.server_conn.via = val
                     else:
                         f.request.host, f.request.port, f.request.scheme = val[0], val[1], val[2]
                     kinds.add(f"{hook.name}:{field}")
